@@ -271,6 +271,21 @@ func (c *Ctx) everyVacancyIsFilled(r *Reconcile, rule string) {
 		return
 	}
 	outer := innermostLoop(r.FI.Decl.Body, store)
+	// the fill loop runs to its end: no break out of it, no return in it
+	if lb := loopBody(outer); lb != nil {
+		early := ""
+		ownNodes(lb, func(y ast.Node) {
+			switch b := y.(type) {
+			case *ast.BranchStmt:
+				if b.Tok == token.BREAK && innermostBreakTarget(lb, b) == nil {
+					early = "a break at " + c.P.Pos(b.Pos())
+				}
+			case *ast.ReturnStmt:
+				early = "a return at " + c.P.Pos(b.Pos())
+			}
+		})
+		c.Check(early == "", rule, name+": runs to the end", outer.Pos(), "no early exit from the fill loop", "the fill loop can be left early ("+early+"): the vacant ordinals behind that point get no pod")
+	}
 	entry := r.FI.Decl.Body.List[0]
 	whead := loopHead(fn, r.WLoop)
 	// `for ord := range replicas`: every index of the wanted slice, by construction
